@@ -399,8 +399,131 @@ def rule_wakeups(ctx):
 _run0 = run
 
 
+
+# ---------------------------------------------------------------------------
+# R1: references taken through the handle API are given back
+
+REFS = {
+    # acquire: (kind, index of the object argument, True if the argument is &var)
+    "nni_sock_find": ("sock", 0, True), "nni_sock_hold": ("sock", 0, False),
+    "nni_ctx_find": ("ctx", 0, True), "nni_ctx_open": ("ctx", 0, True),
+    "nni_dialer_find": ("dialer", 0, True), "nni_dialer_hold": ("dialer", 0, False),
+    "nni_dialer_create": ("dialer", 0, True), "nni_dialer_create_url": ("dialer", 0, True),
+    "nni_listener_find": ("listener", 0, True), "nni_listener_hold": ("listener", 0, False),
+    "nni_listener_create": ("listener", 0, True), "nni_listener_create_url": ("listener", 0, True),
+    "nni_pipe_find": ("pipe", 0, True),
+}
+RELEASE = {
+    "sock": ("nni_sock_rele", "nni_sock_close", "nni_sock_close_device"),
+    "ctx": ("nni_ctx_rele", "nni_ctx_close"),
+    "dialer": ("nni_dialer_rele", "nni_dialer_close"),
+    "listener": ("nni_listener_rele", "nni_listener_close"),
+    "pipe": ("nni_pipe_rele",),
+}
+# calls that keep the caller's hold on the socket when they succeed (the endpoint inherits it)
+INHERIT = {"nni_dialer_create": 1, "nni_dialer_create_url": 1, "nni_listener_create": 1, "nni_listener_create_url": 1}
+
+
+def rule_refs(ctx):
+    from .. import guards as G
+    r = ctx.rule("C10.R1", "T4", "reference pairing: a reference obtained with nni_X_find / nni_X_hold / nni_X_create / "
+                 "nni_ctx_open is released (nni_X_rele), consumed (nni_X_close, or inherited by a successfully created "
+                 "endpoint) or handed to the caller on every path from the successful acquisition to the function's exit",
+                 floor=60)
+    prog = ctx.prog
+    for f in prog.functions:
+        if f.cfg_failed or f.name in REFS or f.file.endswith("_test.c"):
+            continue
+        for a in f.calls():
+            spec = REFS.get(a.node.get("fn"))
+            if not spec:
+                continue
+            kind, idx, byaddr = spec
+            if idx >= len(a.node["args"]):
+                continue
+            arg = f.expand(a.node["args"][idx])
+            if byaddr:
+                if not (arg.get("k") == "un" and arg.get("op") == "&" and arg["e"].get("k") == "var"):
+                    continue
+                var = arg["e"]["n"]
+            else:
+                if arg.get("k") != "var":
+                    continue
+                var = arg["n"]
+            ve = f.value_edges(a)
+            if not ve:
+                # result discarded or returned directly: `return (nni_X_find(...))` hands the reference to the caller
+                r.ob(f, "%s line %s: result handed to the caller" % (a.node["fn"], a.line))
+                continue
+            rel = set()
+            cut = {}
+            for c in f.calls():
+                fnm = c.node.get("fn")
+                args = [f.expand(x) for x in c.node["args"] if x is not None]
+                uses = [i for i, x in enumerate(args) if x.get("k") == "var" and x["n"] == var]
+                if fnm in RELEASE[kind] and uses:
+                    rel.add((c.b, c.i))
+                elif kind == "sock" and fnm in INHERIT and INHERIT[fnm] in uses:
+                    for b, (nz, z) in f.value_edges(c).items():
+                        cut[b] = z                       # success edge: the endpoint keeps the hold
+                elif fnm in ("nni_list_append", "nni_list_prepend", "nni_reap") and uses:
+                    rel.add((c.b, c.i))                  # parked in a longer-lived container that owns the reference
+            # handing the object to the caller / storing it in a longer-lived place ends the obligation
+            for t in f.assigns():
+                rhs = f.expand(t.node["rhs"])
+                if rhs is not None and rhs.get("k") == "var" and rhs["n"] == var and t.node["lhs"].get("k") != "var":
+                    rel.add((t.b, t.i))
+            for s_ in f.sites():
+                if s_.node.get("k") == "ret" and s_.node.get("e") is not None:
+                    e = f.expand(s_.node["e"])
+                    if e.get("k") == "var" and e["n"] == var:
+                        rel.add((s_.b, s_.i))
+            # re-acquisition into the same variable ends this reference's scope only if it was released before
+            # after a successful acquisition the variable is not NULL: `if (v != NULL) rele(v)` releases on every path
+            for b, k in G.nz_edges(f, lambda n: n.get("k") == "var" and n["n"] == var).items():
+                cut.setdefault(b, 1 - k)
+            leak = None
+            for b, (nz, z) in ve.items():
+                tgt = f.blocks[b].succs[z]
+                if tgt is None:
+                    continue
+                seen = f.reach((tgt, 0), blocked=lambda bb, i, e: (bb, i) in rel,
+                               edge_ok=lambda bb, k: not (bb in cut and k == cut[bb]))
+                if (f.exit, 0) in seen:
+                    leak = (tgt, b)
+            if leak:
+                path = f.find_path((leak[0], 0), lambda bb, ii: (bb, ii) == (f.exit, 0), blocked=lambda bb, i, e: (bb, i) in rel,
+                                   edge_ok=lambda bb, k: not (bb in cut and k == cut[bb]))
+                ctx.fail(r, f, "%s reference of %s not released" % (kind, var), a.line,
+                         "%s(%s) succeeded at line %s, but the function can return without %s on %s: the object can never "
+                         "be closed completely (close waits for the reference count)"
+                         % (a.node["fn"], var, a.line, "/".join(RELEASE[kind]), var), f.path_lines(path))
+            else:
+                r.ob(f, "%s line %s: %s released, consumed or handed on along every path" % (a.node["fn"], a.line, var))
+            # a release must not be reachable with the variable still NULL (acquisition skipped)
+            nulls = [p for p, x in G.var_defs(f, var) if x is not None and const_of(x) == 0]
+            if nulls and byaddr:
+                nonnull = G.nz_edges(f, lambda n: n.get("k") == "var" and n["n"] == var)
+                acq = {(x.b, x.i) for x in f.calls() if x.node.get("fn") in REFS and any(
+                    (lambda y: y is not None and y.get("k") == "un" and y["e"].get("k") == "var" and y["e"]["n"] == var)(f.expand(z))
+                    for z in x.node["args"] if z is not None)}
+                for c in f.calls(RELEASE[kind]):
+                    args = [f.expand(x) for x in c.node["args"] if x is not None]
+                    if not any(x.get("k") == "var" and x["n"] == var for x in args):
+                        continue
+                    for npos in nulls:
+                        seen = f.reach((npos[0], npos[1] + 1), blocked=lambda bb, i, e: (bb, i) in acq,
+                                       edge_ok=lambda bb, k: not (bb in nonnull and k == nonnull[bb]))
+                        if (c.b, c.i) in seen:
+                            ctx.fail(r, f, "%s(%s) reachable with %s still NULL" % (c.node["fn"], var, var), c.line,
+                                     "%s is initialised to NULL and acquired only conditionally; %s(%s) at line %s is reachable on "
+                                     "a path that skipped the acquisition and dereferences NULL" % (var, c.node["fn"], var, c.line))
+                            break
+
+
 def run(ctx):   # noqa: F811
     _run0(ctx)
+    ctx.guard(rule_refs)
     ctx.guard(rule_wakeups)
     from . import c02
     ctx.guard(c02.rule_a7)
